@@ -65,7 +65,7 @@ enum Len { L_none, L_hh, L_h, L_l, L_ll, L_z, L_t, L_j };
 struct Directive {
 	std::string flags; int width_kind = 0 /*0 none 1 literal 2 star*/, width = 0; int prec_kind = 0 /*0 none 1 '.' 2 literal 3 star*/, prec = 0;
 	int len = L_none; char conv = 'd';
-	bool is64 = false; uint64_t value = 0; std::string sval;
+	bool is64 = false; uint64_t value = 0; std::string sval; bool unterminated = false;
 	std::string text(int pos) const {
 		std::string s = "%";
 		if(pos > 0) s += std::to_string(pos) + "$";
@@ -123,6 +123,7 @@ Directive gen_directive(Ctx &c, bool positional) {
 		unsigned n = t.pick(3) == 0 ? t.pick(40) : t.pick(8);
 		if(d.prec_kind >= 2 && t.flip()) n = std::max(0, d.prec - 1 + (int)t.pick(3));
 		for(unsigned i = 0; i < n; i++) d.sval.push_back("abcxyz %"[t.pick(8)]);
+		d.unterminated = t.pick(3) == 0;
 	} else d.value = t.pick(3) ? t.next64() : t.pick(3);
 	return d;
 }
@@ -166,7 +167,16 @@ void run_printf(Ctx &c) {
 	VaBuilder vb;
 	std::vector<const char *> keep;
 	auto push_value = [&](const Directive &d) {
-		if(d.conv == 's') { char *s = (char *)malloc(d.sval.size() + 1); c.arena.push_back({s, nullptr}); memcpy(s, d.sval.c_str(), d.sval.size() + 1); vb.push64((uint64_t)(uintptr_t)s); }
+		if(d.conv == 's') {
+			// ISO C: with a precision the argument need not be NUL-terminated as long as it has at least
+			// `precision` characters. Such arguments sit in an exact-size block without terminator.
+			bool bounded = (d.prec_kind == 2 || (d.prec_kind == 3 && d.prec >= 0) || d.prec_kind == 1) && d.sval.size() >= (size_t)(d.prec_kind == 1 ? 0 : d.prec);
+			bool unterminated = bounded && d.unterminated;
+			size_t n = unterminated ? (size_t)(d.prec_kind == 1 ? 0 : d.prec) : d.sval.size() + 1;
+			char *s = (char *)malloc(n); c.arena.push_back({s, nullptr});
+			if(n) memcpy(s, d.sval.c_str(), n);
+			if(unterminated) c.tag("string-unterminated-with-precision");
+			vb.push64((uint64_t)(uintptr_t)s); }
 		else if(d.conv == 'p') vb.push64(d.value);
 		else if(d.is64) vb.push64(d.value);
 		else vb.push_int((uint32_t)d.value);
